@@ -226,7 +226,9 @@ func execTxList(n *simnode.Node, prevState []byte, b *types.Block) (*types.Recei
 	if err := n.Client.Send(msg, true); err != nil {
 		simrt.Failf("send EventExecTxList: %v", err)
 	}
-	resp, err := n.Client.Wait(msg)
+	// (WaitTimeout: client.Wait panics when the ANSWER is the queue-timeout error,
+	// which the executor returns for an execution abandoned on an environment fault)
+	resp, err := n.Client.WaitTimeout(msg, 24*time.Hour)
 	if err != nil {
 		return nil, err // an error reply of the executor arrives here
 	}
